@@ -11,6 +11,7 @@ import (
 	"go/token"
 	"go/types"
 	"runtime/debug"
+	"strings"
 
 	"golang.org/x/tools/go/ssa"
 )
@@ -384,6 +385,9 @@ func totalReaders(l *lockState) int {
 func mutexLock(fr *frame, p *value, write bool) {
 	l := fr.i.lockOf(p)
 	g := fr.g
+	// a goroutine can be descheduled right before it asks for a lock: what it read before (a counter it is about to
+	// update under the lock, say) may be stale by the time it gets in
+	fr.i.yield(g)
 	if write {
 		fr.i.block(g, "Lock", func() bool { return l.writer == nil && totalReaders(l) == 0 })
 		l.writer = g
@@ -525,6 +529,92 @@ func (i *interpreter) noteMapAccess(fr *frame, m *omap, write bool) {
 		}
 		i.tags["race-site"] = site + " accessed in " + where
 		i.violation("race", "unsynchronised-shared-map", fmt.Sprintf("map created in %s: access (write=%v) by g%d in %s is not ordered after the %s", site, write, g.id, where, race), nil)
+		delete(i.tags, "race-site")
+	}
+	if write {
+		st.lastWriteG, st.lastWriteC = g.id, vc[g.id]
+		if fr.fn != nil {
+			st.lastWriteFn = fr.fn.String()
+		}
+		st.reads = map[int]int{}
+	} else {
+		st.reads[g.id] = vc[g.id]
+	}
+}
+
+// ---- the same monitor on the VM's own bookkeeping fields ----
+//
+// The scalar fields of runtime.VM (core counter, core table, ...) are shared by every core goroutine and the waiting
+// host goroutine. Their cells are registered when their address is taken (FieldAddr on a *runtime.VM, or on a struct
+// nested in one); loads and stores through a registered cell are checked like map accesses.
+
+func (i *interpreter) watchField(instr *ssa.FieldAddr, base *value, cell *value) {
+	pt, ok := instr.X.Type().Underlying().(*types.Pointer)
+	if !ok {
+		return
+	}
+	name := ""
+	if named, ok := pt.Elem().(*types.Named); ok {
+		obj := named.Obj()
+		if obj.Pkg() != nil && strings.HasSuffix(obj.Pkg().Path(), "/homescript/runtime") && obj.Name() == "VM" {
+			name = "VM"
+		}
+	}
+	if name == "" {
+		if parent, ok := i.watched[base]; ok {
+			name = parent
+		}
+	}
+	if name == "" {
+		return
+	}
+	if st, ok := pt.Elem().Underlying().(*types.Struct); ok && instr.Field < st.NumFields() {
+		f := st.Field(instr.Field)
+		// synchronisation objects and immutable configuration are not data
+		if tn := f.Type().String(); strings.HasPrefix(tn, "sync.") || strings.HasPrefix(tn, "*") || strings.HasPrefix(tn, "func") {
+			return
+		}
+		name += "." + f.Name()
+	}
+	if i.watched == nil {
+		i.watched = map[*value]string{}
+	}
+	i.watched[cell] = name
+}
+
+func (i *interpreter) noteCellAccess(fr *frame, cell *value, name string, write bool) {
+	if fr.g == nil {
+		return
+	}
+	if i.cellAcc == nil {
+		i.cellAcc = map[*value]*accessState{}
+	}
+	g := fr.g
+	vc := g.clock()
+	st := i.cellAcc[cell]
+	if st == nil {
+		st = &accessState{lastWriteG: -1, reads: map[int]int{}}
+		i.cellAcc[cell] = st
+	}
+	race := ""
+	if st.lastWriteG >= 0 && st.lastWriteG != g.id && st.lastWriteC > vc[st.lastWriteG] {
+		race = fmt.Sprintf("write by g%d in %s", st.lastWriteG, st.lastWriteFn)
+	}
+	if write && race == "" {
+		for rg, rc := range st.reads {
+			if rg != g.id && rc > vc[rg] {
+				race = fmt.Sprintf("read by g%d", rg)
+			}
+		}
+	}
+	if race != "" && !st.reported {
+		st.reported = true
+		where := ""
+		if fr.fn != nil {
+			where = fr.fn.String()
+		}
+		i.tags["race-site"] = name + " accessed in " + where
+		i.violation("race", "unsynchronised-shared-field", fmt.Sprintf("field %s: access (write=%v) by g%d in %s is not ordered after the %s", name, write, g.id, where, race), nil)
 		delete(i.tags, "race-site")
 	}
 	if write {
